@@ -79,7 +79,7 @@ def main():
                 saved[ev] = open(ev).read()        # evidence describes runs on /repo as it is, not on a seeded tree: put it back afterwards
         try:
             for pid in props:
-                cmd = "./check %s%s" % (pid, " --thorough" if thorough else "")
+                cmd = "./check %s%s" % (pid, " --tier thorough" if thorough else "")
                 rc, o = sh(cmd, cwd=VERIF, timeout=7200)
                 vio = [l for l in o.splitlines() if l.startswith("VIOLATION")]
                 last = o.strip().splitlines()[-1] if o.strip() else ""
